@@ -120,6 +120,7 @@ type scRender struct {
 	Lines [][]string // per file lines
 	Occ   []occ
 	DeclAt map[int]*occ // decl id -> occurrence
+	ItemAt map[int][2]int // item index -> (line, column) where its statement starts
 }
 
 func scFileName(i int) string { return fmt.Sprintf("f%d.lua", i+1) }
@@ -140,7 +141,7 @@ func scModeOf(raw []byte, seed int64) int {
 var scPass = 0
 
 func scRenderMode(items []scItem, mode int) *scRender {
-	r := &scRender{DeclAt: map[int]*occ{}}
+	r := &scRender{DeclAt: map[int]*occ{}, ItemAt: map[int][2]int{}}
 	cur := 0
 	r.Files = append(r.Files, scFileName(0))
 	r.Lines = append(r.Lines, nil)
@@ -155,6 +156,7 @@ func scRenderMode(items []scItem, mode int) *scRender {
 				sb.WriteString(" ")
 			}
 		}
+		r.ItemAt[idx] = [2]int{line, sb.Len()}
 		defer func() {
 			if mode == 1 {
 				r.Lines[cur] = []string{sb.String()}
